@@ -52,6 +52,7 @@ class C09(Check):
     quick_examples = 2500
     thorough_examples = 25000
     rule = (
+        "[drawn in addition since rounds 13-15: listed exception sets and transport failures incl. Exception, ValueError and the library's own BaseError / DeserializationError / IdentityError] "
         "cases: (a) enumerated: every outcome word of length n+2 over {success, listed code, unlisted code, batch-level listed error, listed "
         "exception, subclass of a listed exception, unlisted exception} for n in 0..2 (quick) / 0..3 (thorough) attempts x sync / async "
         "client, rotating over request kind {single, batch, notification}, strategy placement {client-wide, per-request, per-request None "
